@@ -611,10 +611,9 @@ def run(ctx):
     # crate is C09's norm-run protocol on requests about mapped characters; a disagreement is promoted into shape() inputs
     env = L.Env(shim)
     import C09
-    own600 = lambda *a: L.judge_own_glyph(*a, adv=lambda g: 600)
     dis = ctx.correspond("norm-run-mapped", lines=L.lattice_run_lines(ctx.rng("norm-mapped"), ctx.budget(6000, 150000), 2),
                          classify=C09.classify_run)
-    L.promote_norm_run(ctx, shim, env, dis, ctx.budget(40, 300), [own600], "norm-run-mapped")
+    L.promote_norm_run(ctx, shim, env, dis, ctx.budget(40, 300), [L.judge_own_glyph_p], "norm-run-mapped")
     L.search(ctx, shim, env, ctx.rng("lattice"), ("decomposable", "plain"), lattice_keep(env), [L.judge_own_glyph],
              LATTICE_RULE, dirs=("-", "t"))
     macroman_search(ctx, shim)
@@ -629,7 +628,7 @@ def replay(ctx, rp):
     if rp.get("stream") == L.STREAM:
         return L.replay(shim, rp, [L.judge_own_glyph])
     if rp.get("stream") == L.PROMOTED:
-        return L.replay_promoted(shim, rp, [lambda *a: L.judge_own_glyph(*a, adv=lambda g: 600)])
+        return L.replay_promoted(shim, rp, [L.judge_own_glyph_p])
     if rp.get("stream") == "macroman":
         got = [int(x) for x in vlib.run_lines(shim, ["pl mactable"], nproc=1)[0].split()]
         i = rp["byte"] - 0x80
